@@ -2,6 +2,7 @@
 package codex
 
 import (
+	"bytes"
 	"encoding/binary"
 	"errors"
 	"fmt"
@@ -300,16 +301,22 @@ func GetCmd(c net.Conn) (string, string, bool, *pty.Winsize, error) {
 	hasSize := (t[0] & hasSizeFlag) != 0
 	l := make([]byte, 4)
 	io.ReadFull(c, l)
-	buf := make([]byte, binary.BigEndian.Uint32(l))
-	io.ReadFull(c, buf)
+	buf := readUpTo(c, binary.BigEndian.Uint32(l))
 	io.ReadFull(c, l)
-	term := make([]byte, binary.BigEndian.Uint32(l))
-	io.ReadFull(c, term)
+	term := readUpTo(c, binary.BigEndian.Uint32(l))
 	var size *pty.Winsize
 	if hasSize {
 		size, _ = readSize(c)
 	}
 	return string(buf), string(term), usePty, size, nil
+}
+
+// readUpTo reads n bytes (fewer if the stream ends first). Memory is allocated
+// as data arrives, not up front from the peer-supplied length.
+func readUpTo(r io.Reader, n uint32) []byte {
+	var b bytes.Buffer
+	io.CopyN(&b, r, int64(n))
+	return b.Bytes()
 }
 
 func readSize(r io.Reader) (*pty.Winsize, error) {
